@@ -352,6 +352,15 @@ func verifCanary(label string, cond bool) {}
 //@   assigns nothing
 //@   ensures [C02:service] err == nil ==> result0 != nil && result1 != nil
 
+// the same function as the receive path calls it: only with a message within the negotiated size limit
+// (ua.decodeLimit() stands for that limit; the caller ties it to its connection)
+//@ ufunc decodeLimit() int
+//@ func DecodeService@limited
+//@   props C06
+//@   requires [C06:message-size-limit] len(b) <= decodeLimit() || len(b) >= 4294967296
+//@   assigns nothing
+//@   ensures err == nil ==> result0 != nil && result1 != nil
+
 //@ func (*DataValue).Decode
 //@   props C02
 //@   requires d != nil
